@@ -34,6 +34,7 @@ type faultIO struct {
 	failCid            string
 	hit                bool
 	reads              int
+	slow               time.Duration // every read takes this long (the final request of some cases)
 }
 
 func (f *faultIO) arm(mode string, k int, cancel context.CancelFunc) {
@@ -51,6 +52,11 @@ func (f *faultIO) disarm() bool {
 
 func (f *faultIO) Read(ctx context.Context, ipfs coreiface.CoreAPI, c cid.Cid) (format.Node, error) {
 	f.mu.Lock()
+	if d := f.slow; d > 0 {
+		f.mu.Unlock()
+		time.Sleep(d)
+		f.mu.Lock()
+	}
 	f.reads++
 	if f.mode != "" {
 		f.seen++
@@ -134,7 +140,7 @@ func c11LoadRun(c fw.Case) fw.Verdict {
 	sP := db.Stores[P.Idx]
 	e.W.Flush()
 	for i := 0; i < n; i++ {
-		if _, err := ApplyOp(bg, sP, honestOp(typ, i)); err != nil {
+		if _, err := ApplyOp(bg, sP, uniqueKeyOp(typ, i)); err != nil {
 			return fw.Verdict{Status: fw.Inconclusive, What: err.Error()}
 		}
 	}
@@ -143,7 +149,7 @@ func c11LoadRun(c fw.Case) fw.Verdict {
 		e.W.Settle()
 		e.W.DropAll()
 		for i := 0; i < 3+rng.Intn(5); i++ {
-			if _, err := ApplyOp(bg, db.Stores[o.Idx], honestOp(typ, 500+i)); err != nil {
+			if _, err := ApplyOp(bg, db.Stores[o.Idx], uniqueKeyOp(typ, 500+i)); err != nil {
 				return fw.Verdict{Status: fw.Inconclusive, What: err.Error()}
 			}
 		}
@@ -188,6 +194,12 @@ func c11LoadRun(c fw.Case) fw.Verdict {
 		lens = append(lens, s2.OpLog().Len())
 	}
 	missingBefore := total - s2.OpLog().Len()
+	if l := s2.OpLog().Len(); l > 0 && l < total {
+		v.Count("final_loads_over_a_partial_log", 1)
+		if typ != tEvent {
+			v.Count("final_loads_over_a_partial_log_with_a_snapshot_index", 1)
+		}
+	}
 	if c.Bool("newer") {
 		// newer entries are persisted through a sibling handle before the final request
 		sib, err := P.DB.Open(bg, db.Addr, &iface.CreateDBOptions{})
@@ -197,7 +209,7 @@ func c11LoadRun(c fw.Case) fw.Verdict {
 			defer sib.Close()
 			if sib.Load(bg, -1) == nil {
 				for i := 0; i < 2; i++ {
-					_, _ = ApplyOp(bg, sib, honestOp(typ, 900+i))
+					_, _ = ApplyOp(bg, sib, uniqueKeyOp(typ, 900+i))
 				}
 				e.W.Settle()
 				full = TakeSnap(typ, sib, P.Idx)
@@ -205,9 +217,19 @@ func c11LoadRun(c fw.Case) fw.Verdict {
 			}
 		}
 	}
-	// the final, uncancelled request
+	// the final, uncancelled request; in three cases of four its entry reads are slow, so that whatever the
+	// request leaves to be done after it has returned is still under way when the result is judged
+	if c.Idx%4 != 0 {
+		fio.mu.Lock()
+		fio.slow = time.Duration(800+rng.Intn(1500)) * time.Microsecond
+		fio.mu.Unlock()
+		v.Count("final_loads_with_slow_reads", 1)
+	}
 	fctx, fcancel := context.WithTimeout(bg, 60*time.Second)
 	ferr := s2.Load(fctx, -1)
+	// Load is a synchronous request: what it makes visible is there when it returns nil
+	lenAtReturn := s2.OpLog().Len()
+	viewAtReturn := ViewOf(typ, s2)
 	fcancel()
 	e.W.Settle()
 	v.Sig = fw.HashSig("load", n, mode, k, aborts, shape, c.Bool("newer"), typ)
@@ -218,6 +240,10 @@ func c11LoadRun(c fw.Case) fw.Verdict {
 	if ferr != nil {
 		return fw.Verdict{Status: fw.Violated, Key: key + "/outcome=final-load-error", NonTrivial: true, Sig: v.Sig,
 			What: fmt.Sprintf("after %d load request(s) aborted by %s at read %d, the final uncancelled Load returns %v", aborts, mode, k, ferr)}
+	}
+	if lenAtReturn < total || viewAtReturn != full.View {
+		return fw.Verdict{Status: fw.Violated, Key: key + "/outcome=final-load-returned-before-the-entries-were-visible", NonTrivial: true, Sig: v.Sig,
+			What: fmt.Sprintf("a persisted %s log of %d entries; after %d aborted request(s) (%v entries left in the log) the final uncancelled Load(-1) returned nil while the log held %d entries (view complete: %v)", shape, total, aborts, lens, lenAtReturn, viewAtReturn == full.View)}
 	}
 	got := TakeSnap(typ, s2, P.Idx)
 	have := map[string]bool{}
@@ -240,4 +266,18 @@ func c11LoadRun(c fw.Case) fw.Verdict {
 	v.Status = fw.Held
 	v.Sample = map[string]interface{}{"family": "load", "mode": mode, "log": total, "k": k, "aborted_requests": aborts, "entries_after_each_abort": lens, "shape": shape}
 	return v
+}
+
+// uniqueKeyOp is honestOp with a key of its own per entry: an entry that is in the log but was never
+// indexed then shows in the view (with repeated keys a newer entry on the same key would mask it).
+func uniqueKeyOp(typ string, n int) Op {
+	op := honestOp(typ, n)
+	switch typ {
+	case tKV:
+		op.Key = fmt.Sprintf("u%d", n)
+	case tDocs:
+		op.Key = fmt.Sprintf("u%d", n)
+		op.Docs[0].ID = op.Key
+	}
+	return op
 }
